@@ -18,6 +18,34 @@ APPS = ['vapp', 'wapp', 'xapp']
 _ready = False
 
 
+ROUTER_SRC = """
+# which database a model lives on, per case: {(app_label, model_name_lower): alias}; models that
+# are not listed get no opinion (Django's default: allowed everywhere)
+ALLOW = {}
+
+
+class Router(object):
+    def allow_migrate(self, db, app_label, model_name=None, **hints):
+        key = (app_label, (model_name or '').lower())
+        if key in ALLOW:
+            return db == ALLOW[key]
+        return None
+
+    allow_syncdb = allow_migrate
+
+    def db_for_read(self, model, **hints):
+        return ALLOW.get((model._meta.app_label, model._meta.model_name))
+
+    db_for_write = db_for_read
+"""
+
+
+def set_routes(mapping):
+    import vrouter
+    vrouter.ALLOW.clear()
+    vrouter.ALLOW.update(mapping)
+
+
 def setup(routers=()):
     global _ready
     if _ready:
@@ -30,8 +58,10 @@ def setup(routers=()):
         open(os.path.join(pkg, 'models.py'), 'w').close()
         with open(os.path.join(pkg, 'evolutions', '__init__.py'), 'w') as f:
             f.write('SEQUENCE = []\n')
+    with open(os.path.join(d, 'vrouter.py'), 'w') as f:
+        f.write(ROUTER_SRC)
     sys.path.insert(0, d)
-    dj.setup(extra_apps=APPS, routers=routers)
+    dj.setup(extra_apps=APPS, routers=['vrouter.Router'] + list(routers))
     _ready = True
 
 
